@@ -114,6 +114,8 @@ def make_plan(tree, seed, i, tier="quick"):
         "symlink_farm": rng.random() < 0.15,
         # environment variables build machines legitimately differ in
         "environ": _environ(rng) if rng.random() < 0.3 else {},
+        # the tool started through a path that contains a symbolic link
+        "invoked_via_symlink": rng.random() < 0.15,
     }
     if rng.random() < 0.25:
         env["extra_entries"][UNITS_DIR] = rng.sample(STRAY, rng.choice((1, 2, 3)))
@@ -331,6 +333,7 @@ def sweep_variants(plan, twin, tier):
     for k in sorted(ENVIRON_CHOICES):
         for v in ENVIRON_CHOICES[k]:
             variants.append({"variant": "sweep-environ-%s=%s" % (k, v), "faults": [], "env": {"environ": {k: v}}})
+    variants.append({"variant": "sweep-invoked-via-symlink", "faults": [], "env": {"invoked_via_symlink": not plan["env"].get("invoked_via_symlink", False)}})
     variants.append({"variant": "sweep-symlink-farm", "faults": [], "env": {"symlink_farm": not plan["env"].get("symlink_farm", False)}})
     variants.append({"variant": "sweep-strays", "faults": [], "env": {"extra_entries": {UNITS_DIR: list(STRAY), CONSTANTS_DIR: list(STRAY), "au/code/au": list(STRAY[:4])}}})
     for i, clk in enumerate(CLOCKS):
@@ -521,6 +524,16 @@ def cli_shape_plans(tree, seed, tier):
             {"units": [u2], "constants": [], "io": True, "main_files": ["au/io.hh", "au/math.hh"]},
             {"units": [u2], "constants": [], "io": False, "main_files": ["au/io.hh"]},
             {"units": "ALL", "constants": [c1], "io": True, "main_files": ["au/units/%s.hh" % u1]},
+        ]
+    # a name that exists both as a unit and as a constant (standard_gravity today), asked for as both
+    for both in sorted(set(tree.units) & set(tree.constants)):
+        other_u = rng.choice([u for u in tree.units if u != both])
+        other_c = rng.choice([c for c in tree.constants if c != both])
+        shapes += [
+            {"units": [both], "constants": [both], "io": True},
+            {"units": [other_u, both], "constants": [other_c, both], "io": False},
+            {"units": "ALL", "constants": [both], "io": True},
+            {"units": [both], "constants": "ALL", "io": False},
         ]
     plans = []
     for n, sel in enumerate(shapes):
